@@ -6,6 +6,7 @@ import (
 	"math/rand"
 	"net"
 	"sync"
+	"sync/atomic"
 	"testing"
 	"time"
 
@@ -243,7 +244,14 @@ func runC14(t *testing.T, rng *rand.Rand, rec *sim.Rec, tier string, caseNo int)
 	}
 	defer w.Shutdown()
 	logs := sim.NewLogSink()
-	rc, err := sim.NewRealClient(w.Net, net.IPv4(10, 1, 0, 1).To4(), 5000, "10.0.0.1:3478", "alice", "pw-a", "verif.test", 0, logs, func(c *turn.ClientConfig) {})
+	// every 4th run: the client asks for an IPv6 relay over its IPv4 path to the server (RFC 6156),
+	// its peers are IPv6 hosts
+	crossFamily := caseNo%4 == 2
+	rc, err := sim.NewRealClient(w.Net, net.IPv4(10, 1, 0, 1).To4(), 5000, "10.0.0.1:3478", "alice", "pw-a", "verif.test", 0, logs, func(c *turn.ClientConfig) {
+		if crossFamily {
+			c.RequestedAddressFamily = turn.RequestedAddressFamilyIPv6
+		}
+	})
 	if err != nil {
 		t.Fatal(err)
 	}
@@ -300,7 +308,11 @@ func runC14(t *testing.T, rng *rand.Rand, rec *sim.Rec, tier string, caseNo int)
 	}
 	var peers []*sim.Peer
 	for i := 0; i < npeers; i++ {
-		p, err := w.NewPeer(fmt.Sprintf("p%d", i), net.IPv4(10, 2, 0, byte(1+i/2)).To4(), 7000+i)
+		pip := net.IPv4(10, 2, 0, byte(1+i/2)).To4()
+		if crossFamily {
+			pip = net.ParseIP(fmt.Sprintf("fd00:2::%x", 1+i/2))
+		}
+		p, err := w.NewPeer(fmt.Sprintf("p%d", i), pip, 7000+i)
 		if err != nil {
 			t.Fatal(err)
 		}
@@ -308,10 +320,14 @@ func runC14(t *testing.T, rng *rand.Rand, rec *sim.Rec, tier string, caseNo int)
 	}
 	rd := &c14Reader{got: map[string]string{}}
 	readerDone := make(chan struct{})
+	var paused atomic.Bool
 	go func() {
 		defer close(readerDone)
 		buf := make([]byte, 2000)
 		for {
+			for paused.Load() {
+				time.Sleep(time.Second) // the application is busy elsewhere
+			}
 			n, from, err := conn.ReadFrom(buf)
 			if err != nil {
 				return
@@ -387,8 +403,35 @@ func runC14(t *testing.T, rng *rand.Rand, rec *sim.Rec, tier string, caseNo int)
 		pattern = "continuous"
 	}
 	ok := probe()
+	floodAt := time.Duration(-1)
+	if caseNo%5 == 1 {
+		floodAt = time.Duration(10+rng.Intn(100)) * time.Minute
+	}
 	for ok && time.Since(start) < dur {
 		w.Net.TakeSendLog() // keep the send log from growing over virtual hours
+		if floodAt >= 0 && time.Since(start) >= floodAt {
+			// the application stops reading for a quarter of an hour while a peer sends more than
+			// the client's receive queue holds: the client must keep its relay alive regardless
+			floodAt = -1
+			paused.Store(true)
+			time.Sleep(2 * time.Second)
+			for k := 0; k < 1500; k++ {
+				_, _ = peers[0].UDP.WriteTo([]byte(fmt.Sprintf("flood-%d", k)), relay)
+				if k%100 == 99 {
+					time.Sleep(10 * time.Millisecond)
+				}
+			}
+			time.Sleep(15 * time.Minute)
+			paused.Store(false)
+			time.Sleep(3 * time.Second)
+			rd.mu.Lock()
+			rd.got = map[string]string{}
+			rd.mu.Unlock()
+			rec.FP("reader-paused-under-flood")
+			if ok = probe(); !ok {
+				break
+			}
+		}
 		var gap time.Duration
 		switch pattern {
 		case "continuous":
@@ -414,7 +457,7 @@ func runC14(t *testing.T, rng *rand.Rand, rec *sim.Rec, tier string, caseNo int)
 		time.Sleep(gap)
 		ok = probe()
 	}
-	rec.FP("run/%s/peers=%d/lossy=%v/perm=%v/chan=%v/life=%v", pattern, min(npeers, 3), lossy, conf.perm, conf.ch, conf.life)
+	rec.FP("run/%s/peers=%d/lossy=%v/perm=%v/chan=%v/life=%v/cross-family=%v", pattern, min(npeers, 3), lossy, conf.perm, conf.ch, conf.life, crossFamily)
 	rec.EvN("virtual-minutes", int(time.Since(start)/time.Minute))
 	pmu.Lock()
 	rec.EvN("control-datagrams-dropped", dropped)
